@@ -11,7 +11,7 @@ open CModel CModel.Drv CModel.Book
 def tagOrder : List (Tag × String) := [
   (.noParent, "noParent"), (.leafExists, "leafExists"), (.trxExists, "trxExists"), (.ownNode, "ownNode"),
   (.genesisIssuer, "genesisIssuer"), (.trxEmpty, "trxEmpty"), (.notLoaded, "notLoaded"), (.dagLoaded, "dagLoaded"),
-  (.genesisRejected, "genesisRejected"), (.transferFailure, "transferFailure"), (.leafRejected, "leafRejected"),
+  (.genesisRejected, "genesisRejected"), (.notCanonical, "notCanonical"), (.transferFailure, "transferFailure"), (.leafRejected, "leafRejected"),
   (.newLeafRejected, "newLeafRejected"), (.balanceFailure, "balanceFailure"), (.unexpected, "unexpected"),
   (.vertexNotFound, "vertexNotFound"), (.entityNotFound, "entityNotFound"), (.idUnknown, "idUnknown"),
   (.idDuplicate, "idDuplicate"), (.overflow, "overflow"), (.insufficient, "insufficient"), (.panic, "panic")]
@@ -87,11 +87,11 @@ def perms {α} : List α → List (List α)
 
 /-- Candidate iteration orders over the tips: all permutations when there are few, otherwise
 orders built around the hint (tips that disappeared first, then the reported parents). -/
-def tipOrders (b : Book) (hintFirst : List Hash) : List (List Vertex) :=
-  let ls := b.leaves
+def tipOrders (b : Book) (hintFirst : List Hash) : List (List Hash) :=
+  let ls := b.leaves.map (·.hash)
   if ls.length ≤ 5 then perms ls else
-  let first := hintFirst.filterMap fun h => ls.find? (·.hash == h)
-  let rest := ls.filter fun v => !hintFirst.contains v.hash
+  let first := hintFirst.filter ls.contains
+  let rest := ls.filter fun h => !hintFirst.contains h
   [first ++ rest, first ++ rest.reverse, rest ++ first, ls, ls.reverse]
 
 def parseTrx (ts : List String) : Option Trx :=
@@ -110,9 +110,9 @@ def candidates (s : St) (b : Book) (op : List String) (res : String) (obs : List
     Option (String × List Cand) :=
   let obsV : List Nat := ((obs.find? (·.1 == "V")).bind (natList ·.2)).getD []
   match op with
-  | ["GEN", _, recv, vn] => do
+  | ["GEN", _, recv, cur, supp, vn] => do
     let v := (s.vertex (← vn.toNat?)).getD default
-    let (b', r) := b.createGenesis recv v
+    let (b', r) := b.createGenesis recv ⟨← u64? cur, ← u64? supp⟩ v
     some ("genesis." ++ resTag r, [(b', resTag r)])
   | "PROP" :: _ :: rest => do
     let trx ← parseTrx (rest.take 6)
@@ -120,9 +120,14 @@ def candidates (s : St) (b : Book) (op : List String) (res : String) (obs : List
     let tip := (s.vertex vn).getD default
     let gone := (b.leaves.filter fun v => !obsV.contains v.hash).map (·.hash)
     let cands := (tipOrders b (gone ++ [tip.left, tip.right])).map fun o1 =>
-      let (b', r) := b.createLeaf trx o1 (o1.filter fun v => b.hasVertex v.hash) tip
+      let (b', r) := b.createLeaf trx o1 o1 tip
       (b', resTag r)
-    some ("propose." ++ res, cands)
+    -- with many tips not every iteration order is enumerated; the throughput counter (which depends
+    -- on the order in which failing tips were dropped) is then taken from the implementation.
+    let obsT := ((obs.find? (·.1 == "T")).bind (u64? ·.2))
+    let cands := if b.leaves.length ≤ 5 then cands else
+      cands.map fun (b', r) => (match obsT with | some t => { b' with throughput := t } | none => b', r)
+    some ((if b.leaves.length ≤ 5 then "propose." else "propose.manytips.") ++ res, cands)
   | ["ADD", _, vn] => do
     let v ← s.vertex (← vn.toNat?)
     let (b', r) := b.addLeaf v
@@ -153,7 +158,7 @@ def candidates (s : St) (b : Book) (op : List String) (res : String) (obs : List
   | ["STREAM", _, names] => do
     let ns ← natList names
     -- any tip order: the stream must be some `streamDag b order`
-    let ok := (tipOrders b []).any fun o => (b.streamDag o).map (·.hash) == ns
+    let ok := (tipOrders b []).any fun o => (b.streamDag (o.filterMap b.getVertex)).map (·.hash) == ns
     some ("stream", [(b, if ok then "ok" else "stream-order-not-reproducible")])
   | ["LOAD", _, names] => do
     let ns ← natList names
